@@ -31,6 +31,12 @@ CHECKS["C07"] = (
     "Coverage is one-directional (over-approximation allowed); returns in nested functions or after raise are not required; crashes on non-literal return expressions are counted under C01, not here.",
     "6/C07",
 )
+CHECKS["C02"] = (
+    "bounded-exhaustive input enumeration on the real pipeline; every emitted stub parsed by an independent recogniser of the Safe-DS stub grammar",
+    "Every entry of the 33-word keyword table (verbatim and as 'kw_') and 13 identifier shapes in 19 declaration/reference positions under both naming settings; string defaults and Literal values over all strings up to length 1 (quick) / 2 (thorough) over an 11-character special alphabet, 13 number spellings; 15 documentation fragments (singles; ordered pairs in thorough) on 8 element kinds x 4 docstring styles; structural letters. One case per module; every generated .sdsstub must be accepted by the recogniser. Exhaustive within the bound.",
+    "Trusts mc/sds_parser.py as the definition of valid stub syntax (ASCII identifiers, 32 reserved words + '_', '{{' opens a template string). Names/strings/doc texts outside the alphabets are not covered.",
+    "6/C02",
+)
 NOT_YET = {}  # id -> reason (filled for properties without a check)
 
 props = [json.loads(l) for l in open(V / "properties.jsonl")]
